@@ -5,5 +5,8 @@ CONSTANTS
   InitLen = 4
   Fixed = TRUE
   Ids <- IdsClasses
+  ServeFails = TRUE
+  DeferUnreport = TRUE
+  LockedAdd = TRUE
 INVARIANTS NoPanic OutcomeOK CountersNonNeg CountersBalanced LockNotLeaked NoWedge
 CHECK_DEADLOCK FALSE
